@@ -115,6 +115,7 @@ func (j *JSONRPCServer) Listen() (int, error) {
 	})
 
 	handler = co.Handler(handler)
+	verifCaptureHandler(j, handler)
 	if !rpcCfg.EnableTLS {
 		go http.Serve(listener, handler)
 	} else {
